@@ -48,6 +48,9 @@ def run(c):
         run_cfg(c, 'Cleaner_big.cfg', 2, 3, 20000, 20)
     res = vlib.run_harness(['receiveonly'])
     vlib.absorb(c, res)
+    # SendOnce / LoadOnce side: the cleaner is told "committed" only after an own snapshot was stored (LSLoop)
+    import loopx
+    loopx.run_suite(c, 'C05', with_window=False)
     c.assumptions += ['snapshots of one instance appear in timestamp order (property text)', 'abstract time unit = 1 minute; interval comparisons land exactly on the boundaries']
     c.extra['rule'] = 'simulated Cleaner behaviours containing at least one cleaning run, replayed on the real cleaner.Worker'
 
